@@ -120,8 +120,15 @@ def read_harness(kind: str):
         eof = I.choose([z3.BoolVal(True)] * 2) == 1
         to: V = NONE if I.choose([z3.BoolVal(True)] * 2) == 0 else VFloat(z3.Real("timeout"))
         I.ghost.update({"next_message": m, "at_eof": eof, "consumed": 0})
+        from pyvc.values import Unsupported
         try:
             r = I.await_v(I.call_v(I.getattr_v(t, "read"), [to, NONE], {}))
+        except Unsupported as e:
+            if "does not terminate within" not in str(e):
+                raise
+            # e.g. re-reading at end of stream: the call never returns and never suspends
+            I.fail("R-read-returns(no-loop-that-repeats-without-progress)", str(e))
+            return
         except PyExc as e:
             I.prove("R-only-the-caller-deadline-interrupts-a-read", z3.BoolVal(
                 issubclass(e.exc.cls, TimeoutError) and I.ghost.get("timed_out", False)),
@@ -511,6 +518,9 @@ def native_replay(unit: str, obligation: str, model: dict) -> tuple[bool, str]:
     logging.disable(logging.CRITICAL)
     import gallia.command  # noqa: F401
     from gallia.services.uds import server as SV
+    if "no-loop-that-repeats-without-progress" in obligation:
+        from . import c08
+        return c08.native_hang(unit.split("/")[0])
     if "timed-out-read" in obligation:
         return native_read_after_timeout()
     if unit.endswith("-lines/read"):
